@@ -207,6 +207,9 @@ func runC11(c *eng.Ctx) {
 		}
 	}
 	c.Floor(5)
+	// ---- R15.8 (shared) the configuration keys this property's switches hang on reach their fields
+	ruleConfigWiring(c, "R15.8")
+
 }
 
 func shortRef(r string) string {
